@@ -374,7 +374,11 @@ int main(void) {
         if(session) {
             /* what may be filled: every chunk that is missing at the start and has bytes */
             c->nridx = 0;
-            for(int i = 0; i < c->nch; i++) if(c->flag0[i] == 0 && c->len[i] > 0) c->ridx[c->nridx++] = i;
+            /* ... plus, when the session re-scans the target (step r: flags recomputed from the file, failed -> missing),
+               every chunk that was flagged failed from the start */
+            int rescans = strchr(ps, 'r') != NULL;
+            for(int i = 0; i < c->nch; i++)
+                if(c->len[i] > 0 && (c->flag0[i] == 0 || (rescans && c->flag0[i] == 2))) c->ridx[c->nridx++] = i;
             run_session(c, ps, r);
             printf("%s\n", r->line);
         } else if(strcmp(ps, "all1") == 0 || strcmp(ps, "all2") == 0) {
